@@ -1,15 +1,16 @@
 (* WinReDefs.v -- expose handlers that RE-ENTER the window layer during a flush (property
    C01): besides drawing, a handler may call tickit_window_expose / show / hide / raise /
-   lower / raise_to_front / lower_to_back on any window.  None of these changes the shape of
-   the tree or a geometry while the flush runs (restacks are queued), but show and hide
-   change visibility flags that _do_expose reads as it goes, and all of them may add damage
-   and raise flags: what is added during the render loop stays in the damage set, with
+   lower / raise_to_front / lower_to_back / close on any window, or drop the last references
+   to one (its own included).  Restacks are queued; show and hide change visibility flags that
+   _do_expose reads as it goes; close takes a window (with everything below it) out of its
+   parent's child list while the lists are being walked; all of them may add damage and raise
+   flags: what is added during the render loop stays in the damage set, with
    needs_expose set, for the NEXT flush.
 
-   do_expose_re follows the child lists of the tree it was started on (they cannot change)
-   and reads each child's visibility in the CURRENT root state. *)
+   do_expose_re follows the child lists of the tree it was started on and reads, in the CURRENT
+   root state, whether an entry is still a child and whether it is visible. *)
 From Coq Require Import ZArith List Bool.
-From Tickit Require Import RectDefs WinRectSet WinDefs WinHist.
+From Tickit Require Import RectDefs WinRectSet WinDefs WinHist WinInput.
 Import ListNotations.
 Local Open Scope Z_scope.
 
@@ -17,7 +18,12 @@ Inductive ract :=
 | RExpose (id : Z) (r : option rect)
 | RShow (id : Z)
 | RHide (id : Z)
-| RRestack (k : hchange) (id : Z).
+| RRestack (k : hchange) (id : Z)
+| RClose (id : Z)              (* tickit_window_close *)
+| RDestroy (id : Z).           (* close and drop the last references: the window is destroyed
+                                  once the window layer lets go of it (it holds a reference on
+                                  every window whose handlers it is running, C08-7) -- for the
+                                  flush this is a close *)
 
 Definition run_act (cfg : defects) (st : root) (a : ract) : root :=
   match a with
@@ -25,6 +31,7 @@ Definition run_act (cfg : defects) (st : root) (a : ract) : root :=
   | RShow id => win_show cfg st id
   | RHide id => win_hide cfg st id
   | RRestack k id => win_restack st k id
+  | RClose id | RDestroy id => win_close cfg st id
   end.
 
 Definition run_acts (cfg : defects) (acts : list ract) (st : root) : root :=
@@ -37,9 +44,21 @@ Definition rhandler := Z -> rect -> root * rbuf -> root * rbuf.
 Definition re_handler (cfg : defects) (hnd : handler) (racts : Z -> list ract) : rhandler :=
   fun id handed sb => (run_acts cfg (racts id) (fst sb), hnd id handed (snd sb)).
 
-Definition vis_now (st : root) (id : Z) : bool :=
-  match t_find id (r_tree st) with Some n => w_vis (t_info n) | None => false end.
+(* the window as it is NOW: in the tree, or in a detached (closed) subtree that is still being
+   walked *)
+Definition node_now (st : root) (id : Z) : option wtree := f_find st id.
 
+Definition vis_now (st : root) (id : Z) : bool :=
+  match node_now st id with Some n => w_vis (t_info n) | None => false end.
+
+(* _is_child(win, child), by address *)
+Definition child_now (st : root) (w c : Z) : bool := opt_is (f_parent st c) (Some w).
+
+(* _do_expose walks a COPY of the child list; since handlers never add windows, the copy taken
+   when the loop starts and the check made when an entry is reached amount to: walk the child
+   list the tree had when the flush began, skipping entries that are not children of the
+   window at the moment they are reached.  A child that left during its own expose is not
+   masked. *)
 Fixpoint do_expose_re (rh : rhandler) (t : wtree) (r : rect) (sb : root * rbuf) : root * rbuf :=
   match t with
   | Node i ch =>
@@ -49,6 +68,7 @@ Fixpoint do_expose_re (rh : rhandler) (t : wtree) (r : rect) (sb : root * rbuf) 
          | [] => sb
          | c :: rest =>
            let ci := t_info c in
+           if negb (child_now (fst sb) (w_id i) (w_id ci)) then kids rest sb else
            if negb (vis_now (fst sb) (w_id ci)) then kids rest sb else
            let sb' :=
              match r_intersect r (w_rect ci) with
@@ -58,7 +78,8 @@ Fixpoint do_expose_re (rh : rhandler) (t : wtree) (r : rect) (sb : root * rbuf) 
                (fst sb2, rb_restore (snd sb2))
              | None => sb
              end in
-           kids rest (fst sb', rb_mask_rect (snd sb') (w_rect ci))
+           kids rest (fst sb', if child_now (fst sb') (w_id i) (w_id ci)
+                               then rb_mask_rect (snd sb') (w_rect ci) else snd sb')
          end) ch sb in
     rh (w_id i) r sb1
   end.
@@ -72,14 +93,16 @@ Fixpoint expose_log_re (rh : rhandler) (t : wtree) (r : rect) (sb : root * rbuf)
        | [] => []
        | c :: rest =>
          let ci := t_info c in
+         if negb (child_now (fst sb) (w_id i) (w_id ci)) then kids rest sb else
          if negb (vis_now (fst sb) (w_id ci)) then kids rest sb else
          match r_intersect r (w_rect ci) with
          | Some ex =>
            let b1 := rb_translate (rb_clip_to (rb_save (snd sb)) ex) (top (w_rect ci)) (left (w_rect ci)) in
            let r' := r_translate ex (- top (w_rect ci)) (- left (w_rect ci)) in
            let sb2 := do_expose_re rh c r' (fst sb, b1) in
+           let b3 := rb_restore (snd sb2) in
            expose_log_re rh c r' (fst sb, b1) ++
-           kids rest (fst sb2, rb_mask_rect (rb_restore (snd sb2)) (w_rect ci))
+           kids rest (fst sb2, if child_now (fst sb2) (w_id i) (w_id ci) then rb_mask_rect b3 (w_rect ci) else b3)
          | None => kids rest (fst sb, rb_mask_rect (snd sb) (w_rect ci))
          end
        end) ch sb ++ [(w_id i, r)]
